@@ -220,7 +220,7 @@ func checkC01(c *Ctx, r *Report) {
 	}
 
 	// ---- R4: writers of identity fields ------------------------------------
-	r4 := r.Rule("C01-R4", "E3", 8, "only the listed functions write the identity / cipher-state fields of noise, tls and quic connections")
+	r4 := r.Rule("C01-R4", "E3", 9, "only the listed functions write the identity / cipher-state fields of noise, tls and quic connections, and the shared switch that disables the peer-ID comparison")
 	type wr struct {
 		pkg, field string
 		allowed    []string
@@ -234,6 +234,9 @@ func checkC01(c *Ctx, r *Report) {
 		{tlsP, tlsP + ".conn.remotePubKey", []string{"(*" + tlsP + ".Transport).setupConn"}},
 		{quicP, quicP + ".conn.remotePeerID", []string{"(*" + quicP + ".transport).dialWithScope", "(*" + quicP + ".listener).wrapConnWithScope"}},
 		{quicP, quicP + ".conn.remotePubKey", []string{"(*" + quicP + ".transport).dialWithScope", "(*" + quicP + ".listener).wrapConnWithScope"}},
+		// the switch that turns the peer-ID comparison off lives in a SessionTransport shared by all its handshakes:
+		// only the option the caller asked for may set it (a handshake that sets it changes every later handshake)
+		{noiseP, noiseP + ".SessionTransport.disablePeerIDCheck", []string{noiseP + ".DisablePeerIDCheck"}},
 	} {
 		n := r4.onlyIn("write "+w.field, fieldWritePred(w.field), c.FnsOfPkg(w.pkg), w.allowed...)
 		if n == 0 {
@@ -526,15 +529,25 @@ func checkC01(c *Ctx, r *Report) {
 				wcK+": PubKeyFromCertChain(PeerCertificates)", instrPos(pc.(ssa.Instruction)), 1, "", "", "")
 		}
 	}
-	// listener config: closure assigned to GetConfigForClient calls ConfigForPeer("")
+	// listener config: the function installed as tls.Config.GetConfigForClient (a function literal, a named function or
+	// a method value) answers with ConfigForPeer(""), made inside it
 	found := false
 	for _, f := range c.FnsOfPkg(quicP) {
-		if c.Parent(f) == nil {
-			continue
-		}
-		sig := f.Signature
-		if sig.Params().Len() == 1 && sig.Results().Len() == 2 && types.TypeString(sig.Params().At(0).Type(), nil) == "*crypto/tls.ClientHelloInfo" {
-			for _, cf := range callsInOnly(f, cfpK) {
+		for _, in := range findInstrsIn(f, func(in ssa.Instruction) bool {
+			st, ok := in.(*ssa.Store)
+			if !ok {
+				return false
+			}
+			fl, _ := fieldAddrOf(st.Addr)
+			return fl != nil && fl.Name() == "GetConfigForClient" && fl.Pkg() != nil && fl.Pkg().Path() == "crypto/tls"
+		}) {
+			g := installedFunc(in.(*ssa.Store).Val)
+			if g == nil || g.Blocks == nil {
+				r7.Fail(fnKey(f)+": GetConfigForClient", instrPos(in), "the installed function could not be resolved", "")
+				found = true
+				continue
+			}
+			for _, cf := range callsIn(g, cfpK) {
 				found = true
 				s, ok := constString(cf.Common().Args[1])
 				r7.Check(ok && s == "", fnKey(f)+": GetConfigForClient uses ConfigForPeer(\"\")", instrPos(cf.(ssa.Instruction)), 1, "", "", "")
@@ -689,6 +702,32 @@ func checkC01(c *Ctx, r *Report) {
 			}
 		}
 		r8.Check(goFn != nil, nssK+": handshake goroutine runs runHandshake", nss.Pos(), 1, "", "", "")
+	}
+
+	// ---- R11: the upgrader never secures an outbound connection without an expected peer ------------------------
+	// Noise refuses an empty expected peer on the dialing side, but the TLS configuration for the empty peer accepts
+	// any certificate (it is the listener's configuration): an outbound upgrade with p == "" would come back
+	// "authenticated" as whoever answered. The upgrader is what stands in front of both.
+	r11 := r.Rule("C01-R11", "E1b", 2, "upgrader.upgrade: the security handshake of an outbound connection starts only with a non-empty expected peer (decision table over p != \"\" and dir == DirOutbound)")
+	upK := "(*p2p/net/upgrader.upgrader).upgrade"
+	if f := r11.need(upK); f != nil {
+		outbound := constIntObj(c, "core/network", "DirOutbound")
+		isP := func(x ssa.Value) bool { return isParamVar(c, x, "p") }
+		atoms := []atomPred{
+			func(x ssa.Value) (bool, bool) {
+				return nonEmptyTest(x, func(y ssa.Value) bool { return isP(y) || isP(strip(y)) })
+			},
+			func(x ssa.Value) (bool, bool) {
+				v, k, isEq, ok := eqConstOf(x)
+				return ok && k == outbound && isParamVar(c, v, "dir"), isEq
+			},
+		}
+		secure := findInstrs(f, callPred("(*p2p/net/upgrader.upgrader).setupSecurity"))
+		tab, okT := boolTable(f, atoms, inSet(secure))
+		// assignment bits: 0 = p != "", 1 = dir == DirOutbound
+		r11.Check(okT && len(secure) >= 1 && !tab[2].some, upK+": [outbound, no expected peer] the security handshake is not started", f.Pos(), 4, "",
+			"an outbound connection is secured without an expected peer: with TLS negotiated it is accepted as whoever answered", fmt.Sprintf("reached on some path: %v", tab[2].some))
+		r11.Check(okT && tab[3].some && tab[1].some && tab[0].some, upK+": every other case (expected peer known, or inbound) does reach the handshake", f.Pos(), 3, "", "the table did not recognise the handshake call or the two tests", "")
 	}
 }
 
